@@ -10,7 +10,7 @@ from vp.model.plain import positions, is_map, is_seq, is_set
 ID = "C13"
 LEVEL = "exploration"
 RULE = ("E1 (complete): every sequence of length <= 4 of same-kind scalars "
-        "(ints, floats or text, 3 values + null, so ties/repeats/nulls "
+        "(ints, floats or text, 3 values incl. the falsy 0 / 0.0 / '' + null, so ties/repeats/nulls "
         "occur), every Array-of-Hashes and hash-of-hashes of <= 4 members "
         "whose attribute a is present / absent / null / the member itself "
         "null, each held under key x, x [max|min|unique|distinct|has_child] "
@@ -30,7 +30,7 @@ EXHAUSTIVE = {"quick": True, "thorough": True}
 SHARD_BUDGET_S = {"quick": 100, "thorough": 1800}
 HARD_TIMEOUT_S = {"quick": 600, "thorough": 3600}
 
-KINDS = {"int": [1, 2, 3], "float": [0.5, 1.5, 2.25], "text": ["a", "b", "ab"]}
+KINDS = {"int": [0, 1, 2], "float": [0.0, 0.5, 1.5], "text": ["", "a", "b"]}
 MISSING = "<missing>"
 
 
